@@ -182,7 +182,7 @@ def raw_text(el) -> str:
 _WS = re.compile(r"[ \t\r\n]+")
 
 
-def odf_text(el) -> str:
+def odf_text(el, strip_trailing: bool = False) -> str:
     """ODF 1.2 §6.1.2 / §6.1.3 consumer view of a paragraph-like element.
 
     White space in character data is collapsed: every run of [ \\t\\r\\n] becomes
@@ -227,19 +227,27 @@ def odf_text(el) -> str:
     # state: True if the previous emitted character-data char was a collapsed
     # space OR we are at paragraph start (leading white space is dropped)
     prev_space = True
+    last_cdata_space = False  # the last thing emitted is a blank that came from character data
     for kind, s in toks:
         if kind == "l":
             out.append(s)
             prev_space = False
+            last_cdata_space = False
             continue
         for ch in s:
             if ch in " \t\r\n":
                 if not prev_space:
                     out.append(" ")
                     prev_space = True
+                    last_cdata_space = True
             else:
                 out.append(ch)
                 prev_space = False
+                last_cdata_space = False
+    if strip_trailing and last_cdata_space and out:
+        # ODF 1.2 part 1 §6.1.2, strict reading: trailing SPACE characters of the
+        # concatenated character data are removed as well
+        out.pop()
     return "".join(out)
 
 
